@@ -1636,7 +1636,8 @@ class Oracle:
             d, _, oh = key.partition(':')
             k = (int(d), bytes.fromhex(oh))
             if val.startswith('err:Load'):
-                s.violation('C14:roundtrip', '%s: the stored object %s cannot be loaded: %s' % (variant, key, val))
+                s.violation('C14:ascii-oid' if variant == 'legacy' else 'C14:roundtrip',
+                            '%s: the stored object %s cannot be loaded: %s' % (variant, key, val))
                 continue
             if val.startswith('err:'):
                 s.violation(self.sig('C14:dangling-reference', [k]),
@@ -1915,9 +1916,17 @@ def nontrivial(s):
     return (sharing or cyc) and len(s.formats & set('TOWMNL')) >= 2
 
 
+class Ran:
+    """what is kept of an executed case (the session's objects, storages and DBs are dropped at once)"""
+
+    def __init__(self, s):
+        self.lines, self.viol, self.counts = s.lines, s.viol, s.counts
+        self.formats, self.nontrivial = s.formats, nontrivial(s)
+
+
 def light(case, s, mo):
     """what the verdict needs from one executed case (picklable)"""
-    res = dict(counts=dict(s.counts), formats=sorted(s.formats), nontrivial=nontrivial(s),
+    res = dict(counts=dict(s.counts), formats=sorted(s.formats), nontrivial=s.nontrivial,
                viol=list(s.viol[:3]), mismatch=None,
                sample=dict(ops=case['ops'][:14], lines=[l for l, _ in s.lines][:10]))
     if not s.viol:
@@ -1939,7 +1948,7 @@ def work(arg):
     """run a chunk of cases on the real code and on the model (one driver process per chunk)"""
     tmp, cases = arg
     TMPBASE[0] = tmp
-    sessions = [run_case(case) for case in cases]
+    sessions = [Ran(run_case(case)) for case in cases]
     alllines = [l for s in sessions for l, _ in s.lines]
     model = run_driver('Refs', alllines) if alllines else []
     out, pos = [], 0
